@@ -64,9 +64,9 @@ def add (g : G) (path : P) (deps : List P) : Option G :=
     { g with nodes := nodes1 }
   if valid g' then some g' else none
 
-/-- `add_sequential(path)` -/
+/-- `add_sequential(path)`: a path that is registered again keeps its place (fix F54) -/
 def addSequential (g : G) (path : P) : Option G :=
-  let g' := { g with sequential := g.sequential ++ [path] }
+  let g' := { g with sequential := if g.sequential.contains path then g.sequential else g.sequential ++ [path] }
   if valid g' then some g' else none
 
 /-- `get_execution_layers()` -/
